@@ -29,6 +29,13 @@ def nearInfo (g : Geometry) (b c : Nat) : Bool × Bool :=
     if cut < nxt then (decide (d ≤ cut), decide (d > cut))      -- no tie at the cut
     else (decide (d < cut), decide (d > cut))                    -- tie: only strict cases are determined
 
+/-- the set of the `n` nearest channels of `b` is unambiguous (no distance tie exactly at the cut) -/
+def nearDetermined (g : Geometry) (b : Nat) : Bool :=
+  let nc := g.positions.length
+  let ds := (List.range nc).map (dist2 g.positions b)
+  let sorted := Np.isort (fun (a b : Rat) => decide (a ≤ b)) ds
+  g.nClosest = 0 || g.nClosest ≥ nc || decide (sorted.getD (g.nClosest - 1) 0 < sorted.getD g.nClosest 0)
+
 /-- dense record with automatic channel selection -/
 def denseOK (g : Geometry) (T : Mat) (thr : Rat) (r : Record) : Bool :=
   let nc := ncols T
